@@ -1750,6 +1750,85 @@ def _closure_factories(tree):
     return count[0]
 
 
+def _inline_local_procedures(tree):
+    """A function defined inside a function whose body is straight-line statements ending in `return <name or simple
+    expression>` (a small builder: make an object, fill it, hand it out), called as the whole value of an assignment /
+    the single argument of a call statement / a return, with simple arguments: the call is replaced by the function's
+    statements (its locals renamed apart, parameters replaced by the arguments) followed by the statement with the
+    returned value in place of the call."""
+    count = [0]
+    for outer in [n for n in ast.walk(tree) if isinstance(n, ast.FunctionDef)]:
+        procs = {}
+        for st in outer.body:
+            if not (isinstance(st, ast.FunctionDef) and not st.decorator_list):
+                continue
+            a = st.args
+            if a.vararg or a.kwarg or a.kwonlyargs or a.posonlyargs or a.defaults:
+                continue
+            body = [x for x in st.body if not (isinstance(x, ast.Expr) and isinstance(x.value, ast.Constant))]
+            if len(body) < 2 or not isinstance(body[-1], ast.Return) or body[-1].value is None or not _simple(body[-1].value):
+                continue
+            if not all(isinstance(x, (ast.Assign, ast.AnnAssign, ast.AugAssign, ast.Expr)) for x in body[:-1]):
+                continue
+            if any(isinstance(n, (ast.Yield, ast.YieldFrom, ast.Return, ast.Lambda, ast.NamedExpr)) for x in body[:-1] for n in ast.walk(x)):
+                continue
+            if any(isinstance(n, ast.Name) and n.id == st.name for x in body for n in ast.walk(x)):
+                continue
+            procs[st.name] = ([p.arg for p in a.args], body)
+        if not procs:
+            continue
+
+        def expand(stmt, call):
+            params, body = procs[call.func.id]
+            if call.keywords or len(call.args) != len(params) or not all(_simple(x) for x in call.args):
+                return None
+            count[0] += 1
+            locals_ = {n.id for x in body for n in ast.walk(x) if isinstance(n, ast.Name) and isinstance(n.ctx, ast.Store)} - set(params)
+            ren = {v: "%s_p%d" % (v, count[0]) for v in locals_}
+
+            class _R(ast.NodeTransformer):
+                def visit_Name(self, n):
+                    if n.id in ren:
+                        return ast.copy_location(ast.Name(id=ren[n.id], ctx=n.ctx), n)
+                    if n.id in params and isinstance(n.ctx, ast.Load):
+                        return ast.copy_location(copy.deepcopy(call.args[params.index(n.id)]), n)
+                    return n
+
+            pre = [_R().visit(copy.deepcopy(x)) for x in body[:-1]]
+            result = _R().visit(copy.deepcopy(body[-1].value))
+            return pre, result
+
+        def rewrite(stmts):
+            out = []
+            for st in stmts:
+                for fld in ("body", "orelse", "finalbody"):
+                    sub = getattr(st, fld, None)
+                    if isinstance(sub, list) and sub and isinstance(sub[0], ast.stmt) and not isinstance(st, (ast.FunctionDef, ast.ClassDef)):
+                        setattr(st, fld, rewrite(sub))
+                site = None
+                if isinstance(st, (ast.Assign, ast.Return)) and isinstance(st.value, ast.Call):
+                    site = ("value", st.value)
+                elif isinstance(st, ast.Expr) and isinstance(st.value, ast.Call) and len(st.value.args) == 1 and not st.value.keywords and isinstance(st.value.args[0], ast.Call):
+                    site = ("arg", st.value.args[0])
+                if site is not None and isinstance(site[1].func, ast.Name) and site[1].func.id in procs:
+                    got = expand(st, site[1])
+                    if got is not None:
+                        pre, result = got
+                        if site[0] == "value":
+                            st.value = result
+                        else:
+                            st.value.args[0] = result
+                        out += [ast.fix_missing_locations(ast.copy_location(p_, st)) for p_ in pre]
+                out.append(st)
+            return out
+
+        outer.body = rewrite(outer.body)
+        for name in list(procs):
+            if not any(isinstance(n, ast.Name) and n.id == name and isinstance(n.ctx, ast.Load) for x in outer.body if not (isinstance(x, ast.FunctionDef) and x.name == name) for n in ast.walk(x)):
+                outer.body = [x for x in outer.body if not (isinstance(x, ast.FunctionDef) and x.name == name)] or [ast.Pass()]
+    return count[0]
+
+
 def normalise(tree):
     """unroll table-driven loops and fold constant getattr / setattr; returns (tree, number of loops unrolled)"""
     _flatten_private_bases(tree)
@@ -1765,5 +1844,6 @@ def normalise(tree):
     tree = _FoldAttr().visit(tree)
     tree = _SubElement().visit(tree)
     tree = _HoistElement().visit(tree)
+    _inline_local_procedures(tree)
     ast.fix_missing_locations(tree)
     return tree, u.count
